@@ -147,11 +147,12 @@ PROPS["C12"] = {
     "technique": 'Lean 4 proof of the closed form and of trip-count soundness against reference loop semantics + natively executed instrumented twin loops',
     "also": ["C01"],   # the shared canon correspondence suite tags its violations C01
     "suites": [{"name": "loops", "quick": 150, "thorough": 3000, "timeout": 3000}, {"name": "canon", "timeout": 3000}],
-    "lean_modules": ["SfwModel.Props.C12"],
+    "lean_modules": ["SfwModel.Props.C12", "SfwModel.Props.C12IV"],
     "required_theorems": ["C12_closed_form", "C12_closed_form_mod_width", "C12_negate_sound", "C12_flags_sound_left",
                           "C12_flags_sound_right", "C12_terminates", "C12_trip_count_sound", "C12_runs_unique",
-                          "C12_bodyCount_runs", "C12_formula_needs_step_sign", "C12_inclusive_equal_bounds_fixed"],
-    "level_text": "Kernel-checked: a variable updated by `i += step` on every trip holds start + k*step at the k-th header evaluation, and that value modulo 2^w on w-bit integers; the model of deriveTripCount's decision chain (operator negation by exit polarity, flags, IV on either side, dead/divergent pre-checks, step-sign requirement, the six closed forms with truncated division and max(0,.)) is sound: whenever the stored trip count evaluates to a number at given argument values the loop `for i := start; i cmp limit; i += step` executes its body exactly that many times (for `!=` under termination). The proof attempt exposed a real defect (inclusive test with equal constant bounds), now fixed and kept as a regression theorem. Tie: the model's loop analysis and rendered TripCount / closed forms are compared byte for byte with the real canonical IR on the corpus including 40+ generated counted loops of every form; independently the REAL exported SCEV trees are evaluated at 12 argument vectors and compared with header values and body counts recorded by a natively executed instrumented twin of each loop.",
+                          "C12_bodyCount_runs", "C12_formula_needs_step_sign", "C12_inclusive_equal_bounds_fixed",
+                          "C12_iv_edges", "C12_iv_basic_guard", "C12_iv_two_updates_rejected", "C12_iv_reverse_subtraction_rejected"],
+    "level_text": "Kernel-checked: a header phi is summarised as an induction variable ONLY IF every edge from inside the loop carries the one integer update `phi ± step` and every outside edge the one start value (guard of classifyIV; two different updates on two back edges are rejected); a variable updated by `i += step` on every trip holds start + k*step at the k-th header evaluation, and that value modulo 2^w on w-bit integers; the model of deriveTripCount's decision chain (operator negation by exit polarity, flags, IV on either side, dead/divergent pre-checks, step-sign requirement, the six closed forms with truncated division and max(0,.)) is sound: whenever the stored trip count evaluates to a number at given argument values the loop `for i := start; i cmp limit; i += step` executes its body exactly that many times (for `!=` under termination). The proof attempt exposed a real defect (inclusive test with equal constant bounds), now fixed and kept as a regression theorem. Tie: the model's loop analysis and rendered TripCount / closed forms are compared byte for byte with the real canonical IR on the corpus including 40+ generated counted loops of every form; independently the REAL exported SCEV trees are evaluated at 12 argument vectors and compared with header values and body counts recorded by a natively executed instrumented twin of each loop.",
     "level_note": "PARTIAL: the link from Go SSA to the abstract counted loop (that the header phi really is updated by `+ step` on every back edge, that the exit test is the only exit) is go/ssa semantics and is validated by native execution, not proved. Trusted: Lean kernel; SCEV.eval as the reading of a SCEV tree (harness evalSCEV is its Go twin); wrap-around is outside the trip-count theorem (unbounded Int), inside the closed-form theorem.",
     "partial": "SSA-to-counted-loop abstraction validated by native execution, not proved; trip counts proved on unbounded integers",
     "trusted_base": ["go/ssa construction and the Go compiler (native twin)", "SCEV.eval / harness evalSCEV as the meaning of a trip-count expression"],
